@@ -19,8 +19,8 @@ vars == <<s, done>>
 L(str) == str
 PathLex == << "$", "@", ".", "..", "[", "]", "(", ")", "?", "*", ",", ":", "'a'", "\"b\"", "'", "\"", "a", "1", "-1", "01", "1e2", "1.5", "1e-1",
               "9007199254740993", "-", "+", "==", "!=", "<", "<>", "&&", "||", "!", " in ", " contains ", "=~", "/a/", "/(/", "/a", "/a/i", "true", "null",
-              "length(", "count(", "match(", "search(", "value(", "nosuch(", "#", "_", "~", "^", " | ", " & ", "undefined", " ", "\\", "'\\u00e9'", "'\\ud800'", "EACUTE", "0", "and", "not ",
-              "1e400", "1.0e16", "1.5e1", "/a{99999999999999999999}/", "'a{99999999999999999999}'", "aaaaaaaaaaaaaaaaaaaaaaaaaaaaaaaaaaaaaaaa", "HUGE", "SQRUN", "DQRUN", "RERUN", "/(?u)a/a", "'(?a)(?u)a'", "-1.0e309", "1.0e-400", "<=", ">=", "1e23", "9007199254740993e0" >>
+              "length(", "count(", "match(", "search(", "value(", "nosuch(", "is(", "typeof(", "#", "_", "~", "^", " | ", " & ", "undefined", " ", "\\", "'\\u00e9'", "'\\ud800'", "EACUTE", "0", "and", "not ",
+              "1e400", "1.0e16", "1.5e1", "/a{99999999999999999999}/", "'a{99999999999999999999}'", "aaaaaaaaaaaaaaaaaaaaaaaaaaaaaaaaaaaaaaaa", "HUGE", "SQRUN", "DQRUN", "RERUN", "/(?u)a/a", "'(?a)(?u)a'", "-1.0e309", "1.0e-400", "<=", ">=", "1e23", "9007199254740993e0", "/a b/x" >>
 PtrLex == << "/", "~", "0", "1", "a", "-", "#", "\\u0041", "\\", "\\ud800", " ", "EACUTE", "%41", "~0", "~1", "~2", "-1", "01", "9007199254740993", "\\x", "SUPER2", "HUGE" >>
 RelLex == << "0", "1", "2", "10", "+", "-", "#", "/", "a", "~", "01", " ", "\\", "+0", "EACUTE", "HUGE", "LIMIT4300" >>
 Lex == CASE Lang = "path" -> PathLex [] Lang = "pointer" -> PtrLex [] Lang = "relptr" -> RelLex [] OTHER -> <<>>
@@ -50,6 +50,8 @@ Bases ==
                           <<"$", "[", "?", "count(", "length(", "@", ".", "a", ")", ")", "==", "1", "]">>, <<"$", "..", "[", "-1", "]">>,
                           <<"$", "[", "?", "value(", "count(", "@", ".", "*", ")", ")", "==", "1", "]">>,
                           <<"$", "..", "[", "?", "search(", "@", ",", "'a'", ")", "]">>, <<"$", "[", "?", "@", ".", "a", "==", "1e23", "]">>,
+                          <<"$", "[", "?", "@", ".", "a", "=~", "/a/i", "]">>,
+                          <<"$", "[", "?", "is(", "@", ".", "a", ",", "@", ".", "b", ")", "]">>, <<"$", "..", "[", "?", "typeof(", "@", ")", "==", "'a'", "]">>,
                           \* slices written without brackets (a non-standard shorthand), two in a row
                           <<"$", ".", "1", ":", "-1", ".", "0", ":", "1">>, <<"$", "..", "1", ":", ".", ":", "1", ":", "-1">> }
     [] Lang = "pointer" -> { <<"/", "a", "/", "0">>, <<"/", "~0", "/", "~1">>, <<>>, <<"/", "-">>, <<"/", "EACUTE", "/", "\\u0041">> }
